@@ -102,7 +102,9 @@ def specLoop (dflt : Attr) : Nat → List Nat → Attr → Attr
             else specLoop dflt fuel rest3 a
         else if n = 2 then
           match rest2 with
-          | r :: g :: b :: rest3 => specLoop dflt fuel rest3 (setColor (c == 38) (hex2 r ++ hex2 g ++ hex2 b) a)
+          | r :: g :: b :: rest3 =>
+            if r ≤ 255 ∧ g ≤ 255 ∧ b ≤ 255 then specLoop dflt fuel rest3 (setColor (c == 38) (hex2 r ++ hex2 g ++ hex2 b) a)
+            else specLoop dflt fuel rest3 a
           | _ => a
         else specLoop dflt fuel rest2 a
     else specLoop dflt fuel rest a
